@@ -174,8 +174,8 @@ class NodePathParser(object):
         elif self.current_state == STATE_STOP_SLICE:
             self.add_new_path_component()
 
-        elif self.current_token != '':
-            raise unexpected_char_error(self.current_token[0], self.pos - len(self.current_token))
+        else:  # any other state means the expression ended before it was complete
+            raise PathExprParsingError('unexpected end of path expression at position {}'.format(self.pos))
 
         return self.node_path
 
